@@ -16,14 +16,17 @@ class Finding:
         self.at = at
         self.extra = extra or {}
 
-    def prop(self):
+    def props(self):
+        """the properties whose statement the broken rule belongs to"""
+        if self.rule == "crash":
+            return {"C05", "C06"}
         if self.rule == "handle_operation_never_returned":
-            return "C05" if (self.thread is not None and self.thread.op == "join") else "C06"
+            return {"C05"} if (self.thread is not None and self.thread.op == "join") else {"C06"}
         if self.rule == "hang_in_drop" or self.rule == "hang_in_keep":
-            return "C06"
+            return {"C06"}
         if self.rule.startswith("hang_in_"):
-            return "C05"
-        return T.rule_property(self.rule)
+            return {"C05"}
+        return {T.rule_property(self.rule)}
 
     def signature(self):
         t = self.thread
@@ -200,8 +203,12 @@ def stray_wake(chk, col, bindir, tier, release=False, tag=""):
 WARM = 5
 
 
+def completed(run, info):
+    return not (run.killed or info.get("crash") or info.get("timeout") or info.get("abort"))
+
+
 def fault_script(ty, op):
-    lines = ["set watchdog=1500", "baseline"]
+    lines = ["set watchdog=2500", "baseline"]
     for i in range(WARM):
         lines.append("one ty=u8 fin=ret op=join")
     lines.append("one ty=%s fin=ret op=%s" % (ty, op))      # the spawn that meets the failing system call
@@ -224,7 +231,7 @@ def faults(chk, col, bindir, tier, release=False, tag=""):
         r.release = release
         o, b, info = col.add(r, "fault")
         inj = info.get("injected", [])
-        if len(inj) != 1 or inj[0]["call"] != "clone" or inj[0]["pid"] != info["h"]:
+        if completed(r, info) and (len(inj) != 1 or inj[0]["call"] != "clone" or inj[0]["pid"] != info["h"]):
             raise core.ToolError("clone fault injection did not hit exactly the owner's clone: %s" % inj)
         # --- mmap: find the ordinal of the target stack mmap among the owner's mmaps without injection
         cal = T.run_probe(chk, bindir, "fault-mmap-cal%s" % tag, script, strace=True, timeout=60)
@@ -232,6 +239,10 @@ def faults(chk, col, bindir, tier, release=False, tag=""):
         hm = [x for x in cal.strace if x["pid"] == info2["h"] and x["call"] == "mmap"]
         stackm = [x for x in hm if ("%d" % T.STACK_SZ) in x["args"]]
         if len(stackm) < WARM + 2:
+            if not completed(cal, info2):
+                # the code under test does not even survive the fault-free script: that run is data
+                col.add(cal, "fault")
+                continue
             raise core.ToolError("calibration run shows %d stack mmaps" % len(stackm))
         k = hm.index(stackm[WARM]) + 1
         mains = len([x for x in cal.strace if x["pid"] == info2["main"] and x["call"] == "mmap"])
@@ -246,6 +257,6 @@ def faults(chk, col, bindir, tier, release=False, tag=""):
         r.release = release
         o, b, info = col.add(r, "fault")
         inj = info.get("injected", [])
-        if len(inj) != 1 or inj[0]["call"] != "mmap" or inj[0]["pid"] != info["h"] or ("%d" % T.STACK_SZ) not in inj[0]["args"]:
+        if completed(r, info) and (len(inj) != 1 or inj[0]["call"] != "mmap" or inj[0]["pid"] != info["h"] or ("%d" % T.STACK_SZ) not in inj[0]["args"]):
             raise core.ToolError("mmap fault injection did not hit exactly the owner's stack mmap: %s" % inj)
     col.flush("fault" + tag)
